@@ -126,20 +126,23 @@ CHECKS = {
     "C13": dict(
         engine="hist", design_ref="DESIGN.md §6 C13",
         technique="Lean 4 ownership invariant proved by induction over all operation histories (concrete keys/slot-table/owner model) + lock-step histories against a reference set model",
-        text=("Proof: Inv (registered keys = functions in the backend entry-point table = functions held by owner objects; unique slots, unique owners) with release_inv, registerNew_inv, "
-              "C13_move_transfers, C13_register, step_inv and C13_inv (the invariant holds after every history of create/destroy/register/unregister/move/lookup, any length, any table size, "
-              "under the explicit side condition that no owner is released while its sandbox is not created); C13_no_dup, C13_full_refused, C13_release_reenables; C13_outlive_witness proves the "
-              "unconditional statement false (known finding F6b). Tied to the code by exhaustive depth-2/3 + sampled deeper histories on a 2-slot backend with a state probe after every step and "
-              "forked can-register probes, random histories on 8- and 64-slot backends, table exhaustion. Two defects found and repaired (4c0791f, 6d44084)."),
-        note=NOTE + "Aborts are exceptions in the harness; histories continue after guard aborts (state unchanged) and stop after a refusal by a full table. F6b is a listed known finding."),
+        text=("Proof: Inv (registered keys = functions in the backend entry-point table = functions held by owner objects through a registration made in the sandbox's CURRENT incarnation; unique "
+              "slots, unique owners, no owner from the future, only created sandboxes have registrations) with release_total, release_inv, registerNew_inv, C13_move_transfers, C13_register, "
+              "destroy_inv, step_inv and C13_inv: the invariant holds after EVERY history of create/destroy/register/unregister/move/lookup, any length, any table size, any number of objects -- "
+              "including owners that outlive destroy_sandbox and re-creation (full strength since the repair of F6b; the only side condition is a naming convention of the model's temporary); "
+              "C13_reachable_eq_owned, C13_owner_ops_never_abort, C13_stale_release_inert, C13_no_dup, C13_full_refused, C13_release_reenables. Tied to the code by exhaustive depth-2/3 + sampled "
+              "deeper histories on a 2-slot backend with a state probe after every step and forked can-register probes, incarnation histories (owner outlives destroy+create, every short suffix), "
+              "destroy/create cycles beyond the table size on noop/vsbx, random histories on 8- and 64-slot backends, table exhaustion. Three defects found and repaired (4c0791f, 6d44084, 9cbedcc)."),
+        note=NOTE + "Aborts are exceptions in the harness; histories continue after guard aborts (state unchanged) and stop after a refusal by a full table."),
     "C14": dict(
         engine="hist", design_ref="DESIGN.md §6 C14",
         technique="Lean 4 state-machine theorems + registry invariant by induction over all histories + lock-step histories against a 4-state reference machine",
         text=("Proof: C14_create_only_from_not_created, C14_create_from_not_created, C14_destroy_only_from_created, C14_destroy_effect, C14_registry_exact (for every history the live-sandbox "
-              "list contains exactly the CREATED objects, each once), C14_find (found from its addresses iff created), C14_outside_window, C14_fresh_symbols (no cached symbol survives "
-              "re-creation), status_enum_matches (source enum regenerated each run); C14_fresh_witness proves full freshness false (callback keys survive: known finding F6b). Tied to the code by "
-              "all op sequences to depth 2/3 + samples on two objects and random histories on three objects (vsbx, noop) with lookups for every region after each history. "
-              "Two defects found and repaired (891f43c stale symbol cache, d07e384 shared lookup cache)."),
+              "list contains exactly the CREATED objects, each once), C14_invariants (registry + region invariant: live sandboxes never share a region), C14_find (an address of region r finds sandbox i iff i is created and lives "
+              "in r now -- never an earlier tenant of the region), C14_outside_window, C14_fresh_symbols, C14_fresh_full (nothing of the earlier incarnation -- callback key, entry point, cached symbol -- "
+              "is visible after re-creation; full strength since the repair of F6b), C14_old_owner_inert, status_enum_matches (source enum regenerated each run). Tied to the code by "
+              "all op sequences to depth 2/3 + samples on two objects, several tenants of one region on a backend that keeps stale fields after destroy, and random histories on three objects "
+              "(vsbx, noop) with lookups for every region after each history. Three defects found and repaired (891f43c stale symbol cache, d07e384 shared lookup cache, 9cbedcc registrations survive re-creation)."),
         note=NOTE + "A failed create leaves the object INITIALIZING for ever (allowed by the statement)."),
     "C16": dict(
         engine="ops", design_ref="DESIGN.md §6 C16",
